@@ -440,6 +440,53 @@ def r6_configured_event_count(ctx, rid="C14.R6"):
         ctx.ok(rid, (f"{PKG}.event_dataframe_data_reader", "EventDataframeDataReader"), None, "the number of events is never inferred outside the constructor", construct="writers of nb_events")
 
 
+def r7_column_writes_keep_rows(ctx):
+    """pandas aligns a Series on the row labels of the table it is written into: a column computed from the table itself keeps its rows, a
+    Series whose rows were re-labelled on the way (`reset_index`, `set_index`, `sort_values` ...) lands on other rows - or on none (NaN) -
+    whenever the caller's table does not have the default 0..n-1 labels."""
+    from ..astq import Inliner
+    ctx.rule("C14.R7", "columns written back into the table are computed on the table's own rows (no re-labelled Series on the right-hand side)", 3)
+    RELABEL = {"reset_index", "set_index", "sort_values", "sort_index", "reindex", "drop_duplicates", "groupby"}
+    POSITIONAL = {"values", "to_numpy", "to_list", "tolist", "array"}
+    n = 0
+    for f in _reader_funcs(ctx):
+        inl = Inliner(f.node)
+        for st in statements(f.node):
+            if not isinstance(st, ast.Assign):
+                continue
+            t = st.targets[0]
+            if not (isinstance(t, ast.Subscript) and isinstance(t.value, ast.Name) and t.value.id.startswith("df")):
+                continue
+            n += 1
+            v = inl.resolve(st.value)
+            # the outermost re-labelling call on the value path (through round / astype / arithmetic) decides; a positional export (`.values`) is safe
+            bad = None
+            stack = [v]
+            while stack:
+                e = stack.pop()
+                if isinstance(e, ast.Attribute) and e.attr in POSITIONAL:
+                    continue
+                if isinstance(e, ast.Call) and isinstance(e.func, ast.Attribute):
+                    if e.func.attr in POSITIONAL:
+                        continue
+                    if e.func.attr in RELABEL:
+                        bad = e
+                        break
+                    stack.append(e.func.value)
+                    stack.extend(a for a in e.args if isinstance(a, (ast.Call, ast.Attribute, ast.Subscript, ast.BinOp)))
+                elif isinstance(e, ast.Call):
+                    stack.extend(e.args)
+                elif isinstance(e, ast.BinOp):
+                    stack.extend([e.left, e.right])
+                elif isinstance(e, ast.Subscript):
+                    stack.append(e.value)
+            ctx.check(bad is None, "C14.R7", f, st, f"`{U(t)}` computed on the table's own rows",
+                      f"`{U(t)}` is assigned a Series whose rows were re-labelled (`.{bad.func.attr if bad is not None else ''}(...)`): pandas aligns it on the row labels of the table, so with a "
+                      "permuted / filtered / concatenated input table the values land on other rows (other visits, other individuals) or become NaN")
+    if n == 0:
+        raise AnalysisError("C14.R7", "anchor vanished: no column write in the readers")
+
+
 # validators each concrete reader runs on every path of read() (computed from the code, confirmed by reading, frozen here)
 MUST_RUN = {
     "VisitDataframeDataReader": ["AbstractDataframeDataReader._check_ID", "AbstractDataframeDataReader._clean_index", "AbstractDataframeDataReader._clean_numeric_data",
@@ -530,6 +577,7 @@ def rules(ctx):
     r2b_infinite_time(ctx)
     r5_positional_access(ctx)
     r6_configured_event_count(ctx)
+    r7_column_writes_keep_rows(ctx)
     r4_validators_run(ctx)
     ctx.trust("pandas copy(deep=True), groupby(sort=False), round, is_unique semantics; bisect")
 
